@@ -90,3 +90,16 @@ Theorem C11_write_through_unflatten : forall NM N self m b i j v,
                if k =? i * N + j then Ret v else view_get m (as_slice NM self) k) /\
     (forall q, q <> padd self (i * N + j) -> cell_at m' q = cell_at m q).
 Proof. exact unflatten_write_through. Qed.
+
+(* ---- tie to the current source: regenerated on every run by tools/ga2coq (coq/gen) ---- *)
+From Coq Require Import String.
+From GA Require Import Guards GuardTie.
+From GAGen Require Import GenGuards GenConstFns.
+Local Open Scope Z_scope.
+
+(* flatten / unflatten by value go through const_transmute, whose size test as it stands in
+   src/lib.rs now lets exactly equal sizes through *)
+Theorem C11_source_const_transmute : forall a b,
+  rejects const_transmute_guard (env2 "size_of_A" a "size_of_B" b) 0 = negb (a =? b) /\
+  fails_by_panic const_transmute_guard = true.
+Proof. exact tie_const_transmute. Qed.
